@@ -87,6 +87,15 @@ def fam_auto(seed, n):
     out.append((f"FA:{seed}:rational-power", ModelSpec(
         'm', ops, {'n0': NodeSpec(['ao'], {}), 'n1': NodeSpec(['li'], {})},
         [EdgeSpec('n0/ao/x', 'n1/li/u', fp()), EdgeSpec('n1/li/x', 'n0/ao/u', fp())], note='auto export, rational exponent')))
+    # values that binary32 does not hold exactly (1/10, 1/3, 7/5, 1/1000): STPNT must hand them to auto-07p in full precision
+    fp = FP()
+    e = X.add(X.mul(X.neg(V('p0')), V('x')), X.add(X.mul(V('p1'), V('u')), V('p2')))
+    nd = OpSpec('ao', [('x', 'de', e)], {'x': ('state', F(1, 10)), 'u': ('input', fp()), 'p0': ('const', F(1, 3)),
+                                         'p1': ('const', F(7, 5)), 'p2': ('const', F(1, 1000))}, output='x')
+    ops = {'ao': nd, 'li': families.op_leaky(fp)}
+    out.append((f"FA:{seed}:non-dyadic-values", ModelSpec(
+        'm', ops, {'n0': NodeSpec(['ao'], {}), 'n1': NodeSpec(['li'], {})},
+        [EdgeSpec('n0/ao/x', 'n1/li/u', fp()), EdgeSpec('n1/li/x', 'n0/ao/u', fp())], note='auto export, non-dyadic values')))
     # more than nine state variables, nonlinear in the high-numbered ones (two-digit y(k) in DFDU/DFDP expressions)
     for k in range(max(1, n // 8)):
         fp = FP()
@@ -167,6 +176,17 @@ def auto_job(job):
     ndim, npar = cf.get('NDIM'), cf.get('NPAR')
     ny = len(np.asarray(args[1]).reshape(-1))
     viol = out['violations']
+
+    # (0) kinds of the STPNT literals: a default-real literal assigned to a double precision slot is rounded to binary32
+    # first (invisible to the real-valued encoding below), so "STPNT holds the model's values" needs literals that
+    # binary32 holds exactly, or double precision literals
+    for lhs, lit_, stored, written in f90smt.literal_kind_mismatches(src, 'stpnt'):
+        tally.obligations += 1
+        tally.sat += 1
+        tally.sat_confirmed += 1
+        viol.append(dict(kind='stpnt-literal-kind',
+                         what=f"STPNT assigns the default-real literal {lit_} to the double precision slot {lhs}: auto-07p starts "
+                              f"from {stored!r}, the model's value is {written!r}"))
 
     # (vi) boundary conditions / integral constraints given in the DSL: every par_<name> of residual k must be read from
     # the slot that parnames assigns to <name> (textual, concrete)
